@@ -289,8 +289,9 @@ def run_case(ci, spec, out):
         feat.append("dim1")
     key = "%s/%s/n%d/qn%d/%s" % (spec["kind"], spec["recipe"], n, spec["qn"], "c" if spec.get("complex") else "r")
     out["features"].append({"key": key, "feat": feat, "dims": dims0})
-    for to_right in (True, False):
-        P = set_direction(obj.copy(), to_right)
+    keep_flags = spec["recipe"].startswith("canon_")     # sums of canonical states are used with the flags they carry
+    for to_right in ((bool(obj.to_right),) if keep_flags else (True, False)):
+        P = obj.copy() if keep_flags else set_direction(obj.copy(), to_right)
         before = snapshot(P)
         far = n - 1 if to_right else 0
         # ---- A: full sweep
@@ -370,13 +371,24 @@ def run_case(ci, spec, out):
             want = (n - 1, False) if which == "left" else (0, True)
             if (int(E.qnidx), bool(E.to_right)) != want:
                 c.fail("centre", "ensure_" + which, {"got": [int(E.qnidx), bool(E.to_right)], "want": list(want)})
-            if rec["push"]:
-                c.iso_checks("ensure_" + which, E, which == "left", want[0], is_op)
-            elif not is_op:
-                # nothing was done: the claim "already canonical" must be true
-                ok = E.check_left_canonical() if which == "left" else E.check_right_canonical()
-                if not ok:
-                    c.fail("ensure_skipped", "ensure_" + which, {})
+            # whether or not a sweep was done, EVERY site but the advertised centre must be an isometry
+            # (recomputed from the tensors; the package's own check_*_canonical is not consulted)
+            c.iso_checks("ensure_" + which + ("" if rec["push"] else "_untouched"), E, which == "left", want[0], is_op)
+            if not rec["push"]:
+                st["ensure_untouched"] = st.get("ensure_untouched", 0) + 1
+            # the result is in the state compress() asserts: a lossless compress must not change the object
+            dE = G.dense(E)
+            for variant in ("big", "ranks"):
+                Q = E.copy()
+                rk = schmidt_ranks(E)
+                m_arg = max(int(x) for x in E.bond_dims) + 1 if variant == "big" else [max(1, r) for r in rk]
+                _, rq = c.run_op("compress", Q, lambda: Q.compress(temp_m_trunc=m_arg), {"variant": variant})
+                if rq["exc"]:
+                    c.fail("raise", "ensure_%s+compress_%s" % (which, variant), {"exc": rq["exc"], "tb": rq.get("tb")})
+                    continue
+                c.common_checks("ensure_%s+compress_%s" % (which, variant), snapshot(E) | {"dense": dE}, Q)
+                if not is_op:
+                    c.iso_checks("ensure_%s+compress_%s" % (which, variant), Q, which != "left", n - 1 - want[0], False)
         # ---- F: malformed entry (centre at the wrong end): both sides must reject
         if n >= 2:
             F = P.copy()
